@@ -442,7 +442,7 @@ def check_builder_effects(chk, prog):
                 bad += 1
                 chk.add(Finding('C10.isolation', info['decl'].get('_f'), k[1], 'builder-store[%s.%s]' % (r, fld),
                                 '%s (%s) writes %s.%s: generating must leave the builder unchanged' % (k[1], eff.chain(parent, k), r, fld)))
-    chk.rule('C10.builder-unchanged', 'nothing reachable from jwt_builder_generate writes a builder field other than error/error_msg', n, bad, floor=30)
+    chk.rule('C10.builder-unchanged', 'nothing reachable from jwt_builder_generate writes a builder field other than error/error_msg', n, bad, floor=20)
 
 
 def run(chk, prog, tier):
